@@ -472,6 +472,75 @@ def fixed_pn(tier):
     return out
 
 
+
+# ------------------------------------------------------------------ transport parameter block grammar
+def unknown_id(rng):
+    """ids no implementation knows: 2^30 <= id < 2^62 (reserved 31*N+27 ids among them)"""
+    if rng.random() < 0.5:
+        return 31 * rng.randrange(1 << 26, 1 << 56) + 27
+    return rng.randrange(1 << 30, 1 << 62)
+
+
+def tp_block(rng, n):
+    params = []
+    for _ in range(n):
+        v = rbytes(rng, rng.choice([0, 0, 1, 2, 8, 16, 40, 70]))
+        params.append(venc(unknown_id(rng), 8) + ev(rng, len(v), 0.3) + v)
+    return params
+
+
+def gen_tparams(rng):
+    side = rng.randrange(2)
+    params = tp_block(rng, rng.choice([0, 1, 1, 2, 3, 5]))
+    bs = [b for p in params for b in p]
+    r = rng.random()
+    if r < 0.45 or not bs:
+        return [side] + bs
+    if r < 0.8:                                      # a prefix: the same parse, cut short
+        return [side] + bs[:rng.randrange(len(bs))]
+    # the last parameter announces more bytes than remain
+    head = [b for p in params[:-1] for b in p]
+    v = rbytes(rng, rng.choice([0, 1, 8]))
+    over = rng.choice([1, 2, 63, 64, 16383, 16384, VMAX - len(v)])
+    return [side] + head + venc(unknown_id(rng), 8) + venc(len(v) + over) + v
+
+
+def fixed_tparams(tier):
+    import random
+    rng = random.Random(1805)
+    out = [[0], [1]]
+    for side in (0, 1):
+        for _ in range(20 if tier == "quick" else 200):
+            bs = [b for p in tp_block(rng, 3) for b in p]
+            for i in range(len(bs) + 1):
+                out.append([side] + bs[:i])
+    return out
+
+
+KNOWN_TP = [0, 1, 2, 3, 4, 5, 6, 7, 8, 9, 10, 11, 12, 13, 14, 15, 16, 0x20, 0xdc0000, 0xdc0002]
+
+
+def gen_tp_total(rng):
+    side = rng.randrange(2)
+    r = rng.random()
+    if r < 0.15:
+        return [side] + rbytes(rng, rng.choice([1, 2, 3, 5, 9, 17, 40]))
+    bs = []
+    for _ in range(rng.choice([1, 2, 3, 5, 8])):
+        pid = rng.choice(KNOWN_TP) if rng.random() < 0.85 else rng.choice([17, 18, 0x1f, 0x21, 0x2ab2, 0xdc0001, unknown_id(rng)])
+        k = rng.random()
+        if k < 0.6:
+            v = venc(rv(rng))
+        elif k < 0.7:
+            v = []
+        else:
+            v = rbytes(rng, rng.choice([1, 2, 4, 8, 16, 20, 21, 41, 45]))
+        bs += ev(rng, pid, 0.1) + ev(rng, len(v), 0.1) + v
+    if r > 0.6:
+        bs = mutate(rng, bs)
+    return [side] + bs
+
+
 registry.register("C05", {
     "gen": ["C05"],
     "props_file": "props/C05.v",
@@ -494,6 +563,14 @@ registry.register("C05", {
         {"name": "pn", "gen": gen_pn, "fixed": fixed_pn, "quick": 10000, "thorough": 200000,
          "valid": lambda c: len(c) == 2 and all(0 <= v <= VMAX for v in c),
          "nontrivial": lambda case, out: len(out) >= 2 and out[0] == 1},
+        {"name": "tparams", "gen": gen_tparams, "fixed": fixed_tparams, "quick": 20000, "thorough": 300000,
+         "valid": lambda c: False,      # no shrinking: deleting bytes could turn value bytes into known ids (C14's domain)
+         "nontrivial": lambda case, out: len(case) >= 10,
+         "histogram": lambda cases, outs: {"accepted": sum(1 for o in outs if o.strip() == "1"), "malformed": sum(1 for o in outs if o.strip() == "0")}},
+        {"name": "tparams_total", "gen": gen_tp_total, "quick": 30000, "thorough": 500000, "model": False,
+         "valid": lambda c: len(c) >= 1 and all(0 <= b <= 255 for b in c[1:]),
+         "nontrivial": lambda case, out: len(case) >= 4,
+         "histogram": lambda cases, outs: {"accepted": sum(1 for o in outs if o.strip() == "1"), "rejected": sum(1 for o in outs if o.strip() == "0")}},
     ],
     "rule": ("varint: all 2^16 two-byte prefixes at 4 (quick) / 8 (thorough) buffer lengths, boundary values 2^k+-2 for k in {0,6,8,14,16,30,32,62,63,64} "
              "encoded and decoded at every admissible length (whole, with a trailing byte, one byte short), seeded random encodes, random valid encodings with tails/cuts, random bytes. "
@@ -503,14 +580,14 @@ registry.register("C05", {
              "encoding length, all eight STREAM types x id/offset/length limits, dc token counts 0,1,2,4092,4093 +-1 byte, every prefix of 150 (quick) / 1500 (thorough) two-frame payloads. "
              "packets: grammar-generated datagrams of 1-3 coalesced packets of all six kinds, mutations, random bytes; fixed: every first byte x versions {0,1,unknown} x lengths, "
              "short-header dcid lengths 0..22, connection id lengths {0,1,19,20,21,255} in every long type, Length field at/below/above the bytes present in every encoding length, "
-             "Retry token/tag boundary 0..19 bytes, every prefix of sample datagrams. pn: deltas at 2^7, 2^15, 2^23, 2^31 +-1 from the largest acknowledged. "
+             "Retry token/tag boundary 0..19 bytes, every prefix of sample datagrams. tparams (grammar only): blocks of 0-5 parameters with unknown ids >= 2^30 (greased ids among them), whole / every prefix / last length overrunning; tparams_total: blocks with known ids and random values, mutations, random bytes - judged for totality only. pn: deltas at 2^7, 2^15, 2^23, 2^31 +-1 from the largest acknowledged. "
              "A varint case is non-trivial when it carries a byte or a value; a frames/packets case when at least the first frame/packet decodes; a pn case when a truncation exists"),
     "assumptions": [
         "totality of the *Rust* decoders (no panic / out-of-bounds / endless loop) is established on the inputs tried (each call under catch_unwind with a step budget, overflow checks and debug assertions on) plus the proved totality of the reference model; agreement with the reference is likewise per input",
         "little-endian host for the model of varint/table.rs (u64::to_be = byte swap); the harness runs on the same host",
         "frame-level validation is that of RFC 9000 section 19 proper; the stream/crypto 'offset + length <= 2^62-1' rule (19.6/19.8, FRAME_ENCODING_ERROR *or* FLOW_CONTROL_ERROR) is enforced by the receive buffers (stream/receive_stream.rs, space/crypto_stream.rs), not by the frame decoder, and is outside this check",
         "an Initial packet's connection IDs are parsed up to 255 bytes (17.2 SHOULD, for Version Negotiation); the 20-byte limit of version 1 is applied by the endpoint after the version check, outside the codec",
-        "header protection, packet number expansion and AEAD are C06/C08; transport parameter blocks are C14",
+        "header protection, packet number expansion and AEAD are C06/C08; the meaning and validation of individual transport parameters is C14 - here only the block grammar (unknown ids) is compared, and arbitrary blocks are run for totality",
     ],
     "trusted_base": ["no axioms: Print Assumptions reports 'Closed under the global context' for every C05 theorem"],
     "explanation": "Coq reference codecs written from RFC 9000 sections 16-19 (varints, all frames, packet headers, truncated packet number bytes) with round-trip / announced-size / progress / totality theorems; the real decoders and encoders must give exactly the reference's answer on every generated input (judge = equality with the reference's canonical rendering, including bytes consumed, encoding_size() vs bytes written, re-encoded bytes and re-decode), and the varint table rows are read from the source and proved equal to the RFC table",
